@@ -160,6 +160,38 @@ def correspondence(ctx):
                     broken.append(Broken("correspondence", "c07.route", f"impl=({sup},{ext}) model=({o['sup']},{o['ext']})",
                                          case={"path": p, "mime": mime, "cfg": cfg}))
         ctx.sample({"cfg": cfg, "path": impls[len(impls) // 3][1], "mime": impls[len(impls) // 3][2], "impl": list(impls[len(impls) // 3][3]), "model": outs[len(impls) // 3]})
+    # history: the same small batch of paths under a changing mimetypes configuration (a memoised
+    # decision would go stale here although every single-configuration sweep agrees)
+    rng = ctx.rng
+    pool = [p for g, p in paths if g != "known-ext"] + [p for g, p in paths if g == "known-ext"][:200]
+    rng.shuffle(pool)
+    nb = ctx.n(12, 80)
+    for bi in range(nb):
+        batch = pool[bi * 40:(bi + 1) * 40]
+        if not batch:
+            break
+        for cfg in ("default", "hostile", "empty", "default", "hostile"):
+            with _MimeConfig(cfg, rng):
+                reqs, impls = [], []
+                for p in batch:
+                    pl = p.lower()
+                    try:
+                        pl.encode("utf-8")
+                        mime = mimetypes.guess_type(pl)[0]
+                    except Exception:
+                        continue
+                    reqs.append({"op": "c07.route", "pl": pl, "mime": mime})
+                    impls.append((p, mime, _impl(p), _impl(p.upper()) if p.upper().lower() == pl else None))
+                outs = ctx.drive(reqs)
+            for (p, mime, (sup, ext), up), o in zip(impls, outs):
+                ctx.case(("hist", bi, cfg, p.lower(), mime))
+                ctx.count(f"history/{cfg}/" + ("routed" if not ext.startswith("ERR") else "unsupported"))
+                bad = o.get("sup") != sup or o.get("ext") != ext or (up is not None and up != (sup, ext))
+                if bad:
+                    total_mismatch += 1
+                    if total_mismatch <= 20:
+                        broken.append(Broken("correspondence", "c07.route-history", f"impl=({sup},{ext}) upper={up} model=({o.get('sup')},{o.get('ext')})",
+                                             case={"path": p, "mime": mime, "cfg": cfg, "history": True}))
     # read_file dispatches to the same extractor (stubs installed in the extractor modules)
     broken += _read_file_dispatch(ctx)
     ctx.coverage["mismatches"] = total_mismatch
@@ -243,7 +275,7 @@ def _oracle_violations(ctx, paths):
         if not any(v.key == key for v in out):
             out.append(Violation(key, what, rep))
 
-    for cfg in ("default", "empty", "hostile"):
+    for cfg in ("default", "empty", "hostile", "default", "hostile", "empty"):
         by_ext = {}
         with _MimeConfig(cfg, ctx.rng):
             for p in paths:
@@ -274,9 +306,17 @@ def _oracle_violations(ctx, paths):
 
 
 def search(ctx, broken):
-    paths = [b.case["path"] for b in broken if b.case and "path" in b.case]
-    paths += [p for _, p in _paths(ctx)][: 4000]
-    return _oracle_violations(ctx, paths)
+    seeds = [b.case["path"] for b in broken if b.case and "path" in b.case]
+    if seeds:  # small set first: history-dependent defects (memoisation) only show on a few paths revisited
+        vs = _oracle_violations(ctx, seeds[:40])
+        if vs:
+            return vs
+    allp = [p for _, p in _paths(ctx)]
+    for i in range(0, min(len(allp), 4000), 40):
+        vs = _oracle_violations(ctx, allp[i:i + 40])
+        if vs:
+            return vs
+    return []
 
 
 def replay(ctx, payload):
